@@ -71,7 +71,8 @@ Definition ic_check (c : icache) (a : assignment) : bool * icache :=
           (b, {| keys := keys c; root := root c; sset := s'; flat := flat c |})
   end.
 
-(* retrieve: the `while key in assignment` loop + the final dispatch; [descend] is _yield_result.
+(* retrieve: at every level, an entry agrees with the lookup on the key if it stores the same value or leaves the key open;
+   a key the lookup leaves open agrees with every branch (in dict order).  [descend] is _yield_result.
    Structural recursion on the list of remaining keys. *)
 Fixpoint retrieve_at (ks : list key) (a : assignment) (l : list (ckey * trie)) (res : assignment)
   : list (assignment * nat) :=
@@ -85,17 +86,13 @@ Fixpoint retrieve_at (ks : list key) (a : assignment) (l : list (ckey * trie)) (
       | _ =>
         match aget a k with
         | Some v =>
-            match tget l (CVal v) with
-            | None => match tget l CAll with Some w => descend w res | None => [] end
-            | Some t => descend t res                   (* follow the concrete chain *)
-            end
+            (* for branch_key in (assignment[key], All) *)
+            match tget l (CVal v) with Some t => descend t res | None => [] end ++
+            match tget l CAll with Some w => descend w res | None => [] end
         | None =>
-            match tget l CAll with
-            | Some w => descend w res                    (* prefer the wildcard branch *)
-            | None => flat_map (fun ct => match fst ct with
-                                           | CVal v => descend (snd ct) (aset res k v)
-                                           | CAll => descend (snd ct) res end) l
-            end
+            flat_map (fun ct => match fst ct with
+                                | CVal v => descend (snd ct) (aset res k v)
+                                | CAll => descend (snd ct) res end) l
         end
       end
   end.
